@@ -249,9 +249,49 @@ func MutateWire(r *Rng, msg []byte, maxDup int) (out []byte, label string, ok bo
 	return EncodeWire(fs), label, true
 }
 
+// WireMax bounds the encoded size a mutation may produce (operators compound: a repeated
+// field inside a repeated field ...).
+const WireMax = 4 << 20
+
+func wireSize(fs []*WireField) int {
+	n := 0
+	for _, f := range fs {
+		n += 2
+		switch f.Type {
+		case 0:
+			n += 5
+		case 1:
+			n += 8
+		case 5:
+			n += 4
+		case 2:
+			if f.IsMsg {
+				n += 3 + wireSize(f.Children)
+			} else {
+				n += 3 + len(f.Bytes)
+			}
+		}
+		if n > 16*WireMax {
+			return n
+		}
+	}
+	return n
+}
+
 func mutateWireOnce(r *Rng, root *[]*WireField, maxDup int) string {
 	var slots []wireSlot
+	cur := wireSize(*root)
+	if cur > WireMax/2 {
+		// already big: only shrink
+		if len(*root) > 1 {
+			*root = (*root)[:1+r.Intn(len(*root)-1)]
+		}
+		return "shrink"
+	}
 	collectSlots(root, &slots)
+	if len(slots) > 200000 {
+		return "noop"
+	}
 	if len(slots) == 0 {
 		*root = append(*root, &WireField{Num: uint64(r.Range(1, 8)), Type: 0, Val: r.U64()})
 		return "add-to-empty"
@@ -263,13 +303,16 @@ func mutateWireOnce(r *Rng, root *[]*WireField, maxDup int) string {
 		*s.parent = append((*s.parent)[:s.idx:s.idx], (*s.parent)[s.idx+1:]...)
 		return "drop"
 	case 1: // duplicate once (last-one-wins scalars, merged messages, +1 repeated)
+		if wireSize([]*WireField{f}) > WireMax/4 {
+			return "noop"
+		}
 		c := cloneWire([]*WireField{f})[0]
 		*s.parent = append(append(append([]*WireField(nil), (*s.parent)[:s.idx+1]...), c), (*s.parent)[s.idx+1:]...)
 		return "dup"
 	case 2: // huge repeated count
 		k := r.Range(2, maxDup)
-		if sz := len(EncodeWire([]*WireField{f})); sz*k > 4<<20 {
-			k = (4<<20)/sz + 1
+		if sz := wireSize([]*WireField{f}); sz*k > WireMax-cur {
+			k = (WireMax-cur)/sz + 1
 		}
 		ins := make([]*WireField, k)
 		for i := range ins {
@@ -361,7 +404,7 @@ func mutateWireOnce(r *Rng, root *[]*WireField, maxDup int) string {
 		}
 		return "overlong-tag"
 	default: // nest the message into one of its own bytes fields (type confusion / depth)
-		if f.Type == 2 {
+		if f.Type == 2 && cur < WireMax/4 {
 			f.Bytes = EncodeWire(*root)
 			f.IsMsg, f.Children = false, nil
 			return "self-nest"
